@@ -11,6 +11,9 @@ var allSites = []string{"ctrlo", "plain", "plain-locked", "logf", "logf-locked",
 
 func genConfig(job *simkit.Job, rng *simkit.RNG, idx int64) (Config, []Action) {
 	cfg := Config{Profile: job.Property, ChanCap: []int{4, 64, 1024}[rng.Intn(3)], NoTS: rng.Chance(1, 3), Steps: rng.Range(10, 80)}
+	if rng.Chance(1, 5) {
+		cfg.InsertSource = []string{"err", "empty"}[rng.Intn(2)]
+	}
 	if rng.Chance(1, 6) {
 		cfg.Stall = true // no shell attached: entered lines pile up on the input channel
 		cfg.ChanCap = []int{1, 2, 4}[rng.Intn(3)]
